@@ -212,7 +212,8 @@ def main():
                     importlib.reload(sys.modules["vzpkg"])
                 mod = importlib.reload(mod)
             elif kind == "truth":
-                t = fresh_truth(op["text"], op["name"], op.get("how", "plain"), init_text=op.get("init_text", ""))
+                # (the fresh interpreter runs under another hash seed than this one: a version is a function of the program)
+                t = fresh_truth(op["text"], op["name"], op.get("how", "plain"), hashseed=op.get("hashseed", "0"), init_text=op.get("init_text", ""))
                 ev["ver"], ev["exc"] = t["ver"], t["exc"]
             else:
                 ev["exc"] = "unknown op"
